@@ -581,6 +581,13 @@ func TestC09(t *testing.T) {
 			c09Referral(t, m, v, rng, c)
 		}
 	}
+	// request nonces are fresh: among the requests of this run (random 31-bit values: a chance repeat among a few
+	// thousand is rare, three of them are not chance)
+	if rep, total := nonceRepeats(); rep >= 3 {
+		v.Violate("failing-input", "c09:nonce-repeats", "request nonces repeat: a reply recorded for one request answers a later one", map[string]string{"requests": fmt.Sprint(total), "requests-with-an-earlier-nonce": fmt.Sprint(rep)})
+	} else {
+		v.Note(fmt.Sprintf("request nonces: %d requests, %d repeats", total, rep))
+	}
 	v.ModelAsks = m.N
 	v.Write(t)
 }
